@@ -178,3 +178,64 @@ def read_dir(d):
 
 def listing(d):
     return [x for x in fsfault.listing(d) if not os.path.basename(x[0]).startswith(".report-")]
+
+
+# -------------------------------------------------------------------- rollup tool
+def _run_rollup_step(arg):
+    import random
+
+    import numpy as np
+
+    run = arg["run"]
+    random.seed(1)
+    np.random.seed(1)
+    res = W.run_rollup(run["src"], run["dest"], level="psm", sched_desc={"mode": "fifo"}, knobs=run.get("knobs"),
+                       glob_seed=run.get("glob_seed"), faults=[run["fault"]] if run.get("fault") else None)
+    rep = res.fs.report()
+    rep["error"] = res.error
+    rep["etype"] = type(res.exc).__name__ if res.exc is not None else None
+    return rep
+
+
+def run_rollup_hist(run, root, timeout=120):
+    report = os.path.join(str(root), f".report-{os.getpid()}-rollup.json")
+    os.makedirs(root, exist_ok=True)
+    if os.path.exists(report):
+        os.unlink(report)
+    r = pool.run_step(_kill_wrapper, {"fn": "rollup", "run": run, "report": report}, timeout=timeout)
+    if r.get("ok"):
+        rep = r["result"]
+        rep["outcome"] = "error" if rep.get("error") else "ok"
+    elif "killed" in r:
+        rep = {}
+        if os.path.exists(report):
+            with open(report) as fh:
+                rep = json.load(fh)
+        rep["outcome"] = "killed"
+    elif r.get("timeout"):
+        rep = {"outcome": "timeout"}
+    else:
+        rep = {"outcome": "harness_error", "error": r.get("error"), "traceback": r.get("traceback")}
+    if os.path.exists(report):
+        os.unlink(report)
+    return rep
+
+
+def _kill_wrapper(arg):
+    """run_rollup builds its FS seam through world.sim_env, which needs killable/report settings."""
+    from .. import world
+
+    orig = world.sim_env
+
+    def sim_env(*a, **kw):
+        kw["killable"] = True
+        kw["report_path"] = arg["report"]
+        return orig(*a, **kw)
+
+    world.sim_env = sim_env
+    W.world.sim_env = sim_env
+    try:
+        return _run_rollup_step(arg)
+    finally:
+        world.sim_env = orig
+        W.world.sim_env = orig
